@@ -25,6 +25,7 @@ def g(f, **kw):
 PROPS = {
     "C01": {
         "families": [
+            fam("bigshare", g(gen.fam_bigshare), 0, 0, view="values+nospec", kinds=["impl-vs-model", "crash", "length", "immut"], rule="tracked arrays of 4096 / 8192 / 8200 elements with a plain and a row-broadcasting consumer, both arrival orders, two passes: implementation against the model (no forward-mode reference at this size)"),
             fam("dag", g(gen.fam_dag), 250, 6000, view="values", rule="distinct (topology, shapes, flags) of random programs with fan-out >= 2 and a tracked leaf; plus self-product chains to depth 45/60"),
             fam("dag-float", g(gen.fam_dag, mode="float"), 120, 3000, mode="float", view="values", rule="as dag, non-ring operations included"),
             fam("customlog", g(gen.fam_customlog), 80, 2000, view="values", rule="distinct Array::op programs"),
@@ -51,6 +52,7 @@ PROPS = {
     },
     "C03": {
         "families": [
+            fam("bigshare", g(gen.fam_bigshare), 0, 0, view="values+nospec", kinds=["impl-vs-model", "crash", "length", "immut"], rule="long broadcast operands with several consumers (see C01)"),
             fam("bcast-add", g(gen.fam_bcast_add), 150, 3000, view="values", rule="distinct (add|sub, broadcast-compatible shape pair with a != b, uses in 1..4): gradient dimensions and values (= sum of the seed over the broadcast positions) of both operands"),
             fam("ewise-grad-shape", g(gen.fam_ewise, grads=True), 100, 2000, view="shape", rule="distinct (op, shape pair, uses): only the *dimensions* of the stored gradients are compared"),
             fam("dag-shape", g(gen.fam_dag), 150, 3000, view="shape", rule="distinct random programs; only the dimensions of every stored gradient are compared"),
